@@ -24,7 +24,7 @@ MOD = 'checks.c19'
 RULE = (
     "Cases: Hypothesis file sets in a directory created (and removed) by the check: valid messages of "
     "every kind, roCreates, completed running orders (serialised after a roDelete), non-XML files, "
-    "well-formed XML of unknown type, missing paths and directories, listed in a drawn order for "
+    "well-formed XML of unknown type, missing paths, directories, paths below a regular file (ENOTDIR) and over-long names (ENAMETOOLONG), sometimes named relative to the current directory ('~backup.mos.xml', '.hidden'), listed in a drawn order for "
     "`detect` and `inspect`; for `merge`: valid collections, invalid ones (second roCreate, missing "
     "roDelete, non-XML member), collections whose strict merge fails and collections whose roCreate "
     "file is an already completed running order (the output of an earlier merge), x {-o file, stdout} x -i x "
@@ -39,7 +39,7 @@ RULE = (
     "Non-trivial = >= 3 files with a bad/unreadable one that is not last, or a non-default option.")
 ASSUMPTIONS = ['the S3 options (-b/-p/-s/-k) run against the fake S3 of C18',
                'inspect() output of the library is the reference for the inspect command (self-consistency)']
-MANDATORY = ['odd-file-names', 'file-listed-twice', 'detect', 'inspect', 'merge', 'detect:s3', 'inspect:s3', 'merge:s3', 'merge:shape:completed-create', 'bad-file-not-last', 'missing-path', 'directory', 'completed-ro',
+MANDATORY = ['other-OSError', 'relative-names', 'odd-file-names', 'file-listed-twice', 'detect', 'inspect', 'merge', 'detect:s3', 'inspect:s3', 'merge:s3', 'merge:shape:completed-create', 'bad-file-not-last', 'missing-path', 'directory', 'completed-ro',
              'merge:-o', 'merge:-o=input-file', 'merge:-i', 'merge:-n', 'merge:invalid-collection', 'merge:strict-failure',
              'merge:no-input']
 
@@ -69,6 +69,14 @@ def materialise(case, root):
             continue
         if kind == 'missing':
             p = os.path.join(root, f'missing{i:02d}.mos.xml')
+        elif kind == 'notdir':
+            # a path below a regular file (ENOTDIR)
+            base = os.path.join(root, f'plain{i:02d}.mos.xml')
+            with open(base, 'w', encoding='utf-8') as f:
+                f.write('<mos/>')
+            p = os.path.join(base, 'x.mos.xml')
+        elif kind == 'toolong':
+            p = os.path.join(root, 'n' * 300 + '.mos.xml')          # ENAMETOOLONG
         elif kind == 'dir':
             p = os.path.join(root, f'dir{i:02d}')
             os.makedirs(p, exist_ok=True)
@@ -76,10 +84,21 @@ def materialise(case, root):
             with open(p, 'w', encoding='utf-8') as f:
                 f.write(content)
         args.append(p)
+    if case.get('relative'):
+        args = [os.path.relpath(a, root) for a in args]
     return args
 
 
 def judge_listing(case, root):
+    if case.get('relative') and not case.get('_in_cwd'):
+        # file names relative to the current directory (e.g. '~backup.mos.xml')
+        os.makedirs(root, exist_ok=True)
+        old = os.getcwd()
+        os.chdir(root)
+        try:
+            return judge_listing(dict(case, _in_cwd=True), root)
+        finally:
+            os.chdir(old)
     cmd = case['cmd']
     if not case['files']:
         return []        # no file named: usage handling is not part of the property
@@ -118,8 +137,8 @@ def judge_listing(case, root):
         got_lines, exp_lines = out.splitlines(), exp_out.splitlines()
         missing = [l for l in exp_lines if l not in got_lines]
         if missing and len(got_lines) < len(exp_lines):
-            kinds = sorted({k for k, _ in case['files'] if k in ('missing', 'dir', 'garbage', 'unknown')})
-            fail('files-not-processed|' + ('after-unreadable' if set(kinds) & {'missing', 'dir'} else 'other'),
+            kinds = sorted({k for k, _ in case['files'] if k in ('missing', 'dir', 'notdir', 'toolong', 'garbage', 'unknown')})
+            fail('files-not-processed|' + ('after-unreadable' if set(kinds) & {'missing', 'dir', 'notdir', 'toolong'} else 'other'),
                  f'{len(missing)} expected lines are missing (status {status}); first: {missing[0]!r}; '
                  f'stderr: {err.strip()[-200:]!r}', exp_out, out)
         else:
@@ -140,7 +159,7 @@ def judge_s3(case, root):
     cmd = case['cmd']
     objs = {}
     for i, (kind, content) in enumerate(case['files']):
-        if kind in ('missing', 'dir', 'same-as-first'):
+        if kind in ('missing', 'dir', 'notdir', 'toolong', 'same-as-first'):
             continue
         name = f"pre/k{i:02d}" + ('.mos.xml' if kind != 'other-suffix' else '.txt')
         objs[name] = (content or '').encode('utf-8')
@@ -327,7 +346,7 @@ def listing_case(draw):
     _k, t = draw(gen.message(state, col['ro_id'], faults='none', rich=True, mid=777777))
     files.append(('valid', t))
     for _ in range(draw(st.integers(0, 3))):
-        kind = draw(st.sampled_from(['garbage', 'unknown', 'missing', 'dir', 'empty']))
+        kind = draw(st.sampled_from(['garbage', 'unknown', 'missing', 'dir', 'empty', 'notdir', 'toolong']))
         content = {'garbage': 'this is <not xml', 'unknown': '<mos><mosID>x</mosID><heartbeat/></mos>',
                    'empty': ''}.get(kind)
         files.insert(draw(st.integers(0, len(files))), ('garbage' if kind == 'empty' else kind, content))
@@ -340,7 +359,14 @@ def listing_case(draw):
                 names[str(i)] = draw(st.sampled_from(['with space {}.mos.xml', 'é中 {}.xml', 'a=b{}.mos.xml', '{}', 'UPPER{}.MOS.XML',
                                                       'x{}.mos.xml.bak', "it's{}.xml"])).format(i)
         files.insert(draw(st.integers(1, len(files))), ('same-as-first', None))
-    return {'cmd': draw(st.sampled_from(['detect', 'inspect'])), 'files': [list(f) for f in files], 'names': names}
+    relative = False
+    if names and draw(st.booleans()):
+        # named relative to the current directory; editor backup / lock-file style names
+        relative = True
+        for i in list(names)[:2]:
+            names[i] = draw(st.sampled_from(['~backup{}.mos.xml', '~${}.mos.xml', '.hidden{}.mos.xml'])).format(i)
+    return {'cmd': draw(st.sampled_from(['detect', 'inspect'])), 'files': [list(f) for f in files], 'names': names,
+            'relative': relative}
 
 
 @st.composite
@@ -387,6 +413,10 @@ def shard(args):
             cl.append('missing-path')
         if 'dir' in kinds:
             cl.append('directory')
+        if 'notdir' in kinds or 'toolong' in kinds:
+            cl.append('other-OSError')
+        if case.get('relative'):
+            cl.append('relative-names')
         if any(k == 'valid' and c and 'mosromgrmeta' in c for k, c in case['files']):
             cl.append('completed-ro')
         if case.get('names'):
@@ -404,7 +434,7 @@ def shard(args):
     drive.run_given(listing_case(), one_s3, max(5, n // 3), seed + 2)
 
     def two_s3(case):
-        if not case['files'] or any(k in ('missing', 'dir') for k, _ in case['files']):
+        if not case['files'] or any(k in ('missing', 'dir', 'notdir', 'toolong') for k, _ in case['files']):
             return
         c = {'cmd': 'merge', 'files': case['files'], 'via': 's3', 'page_size': 2,
              'opts': {'i': case['opts']['i'], 'n': case['opts']['n'], 's': bool(case['opts']['o'])}}
